@@ -29,7 +29,7 @@ func drawC20(rt *rapid.T) TSpec {
 	if thorough() {
 		maxTasks = 24
 	}
-	kinds := []int{tPrepare, tPrepare, tProveNonrev, tProveNonrev, tProvePlain, tVerify, tRandRead, tRandRead, tRandomQR, tProveRange, tProveList, tIssueCommit, tIssueRetry, tVerifyUpdate, tVerifyUpdate}
+	kinds := []int{tPrepare, tPrepare, tProveNonrev, tProveNonrev, tProvePlain, tVerify, tRandRead, tRandRead, tRandomQR, tProveRange, tProveList, tIssueCommit, tIssueRetry, tVerifyUpdate, tVerifyUpdate, tProveAfterFailedCommit}
 	if rapid.IntRange(0, 7).Draw(rt, "freerun") == 0 {
 		// stress class: real parallelism, generator-heavy (reaches windows between adjacent atomic operations)
 		s := drawTSpec(rt, []int{tRandStress, tRandStress, tRandRead, tRandRead, tRandomQR, tProveNonrev, tPrepare, tGenKey}, 16, 12, 1)
